@@ -5,7 +5,13 @@ PATCH="$1"; TIER="$2"; shift 2
 cd /repo || exit 2
 if [ -n "$(git status --porcelain --untracked-files=no)" ]; then echo "/repo has uncommitted changes"; exit 2; fi
 git apply "$PATCH" || { echo "patch does not apply"; exit 2; }
-trap 'git -C /repo checkout -- . ' EXIT
+restore() {
+  git -C /repo checkout -- .
+  # the hooks-on binaries under /verif/target/repo were rebuilt from the changed tree: rebuild them
+  (cd /repo && RUSTFLAGS="--cfg resolved_verif" CARGO_TARGET_DIR=/verif/target/repo cargo build --release --offline -p resolved -p ztoz -p htoh -p htoz -p ztoh >/dev/null 2>&1)
+  (cd /verif/harness && cargo build --release --offline >/dev/null 2>&1)
+}
+trap restore EXIT
 for id in "$@"; do
   out=$(cd /verif && VERIF_OUT=/scratch/seed-out ./check "$id" --tier "$TIER" 2>&1); rc=$?
   echo "$out" | grep -E "VIOLATION|KNOWN-FINDING|^C[0-9]+ (quick|thorough)|machinery|further violations" | cut -c1-500 | head -6
